@@ -453,24 +453,25 @@ class MADDPG(MultiAgentRLAlgorithm):
                 )
 
             actor.train()
-            if training:
-                if self.discrete_actions:
-                    min_action, max_action = (
-                        torch.zeros(1, device=actions.device),
-                        torch.ones(1, device=actions.device),
-                    )
-                else:
-                    min_action, max_action = (
-                        torch.as_tensor(self.min_action[idx], device=actions.device),
-                        torch.as_tensor(self.max_action[idx], device=actions.device),
-                    )
-
-                # Add noise to actions for exploration
-                actions = torch.clamp(
-                    actions + self.action_noise(idx),
-                    min_action,
-                    max_action,
+            if self.discrete_actions:
+                min_action, max_action = (
+                    torch.zeros(1, device=actions.device),
+                    torch.ones(1, device=actions.device),
                 )
+            else:
+                min_action, max_action = (
+                    torch.as_tensor(self.min_action[idx], device=actions.device),
+                    torch.as_tensor(self.max_action[idx], device=actions.device),
+                )
+
+            if training:
+                # Add noise to actions for exploration
+                actions = actions + self.action_noise(idx)
+
+            # Keep actions inside the action space (also without noise: rescaling to
+            # the bounds can overshoot them by a floating point rounding error)
+            if training or not self.discrete_actions:
+                actions = torch.clamp(actions, min_action, max_action)
 
             action_dict[agent_id] = actions.cpu().numpy()
 
